@@ -498,6 +498,7 @@ func c12Cycle(rep *Report, cfg pqengine.Config, hseed int64, cycles int, tight b
 		}
 	}
 	if ackModel != nil {
+		pqWriterK1Setup(rep, ackModel)(e) // the writer model follows every Write / Next / Flush, also the failing ones
 		e.AckHook = pqAckChecks(rep, ackModel)
 	}
 	checkSpace := func(what string) {
@@ -1087,6 +1088,30 @@ func c12DrainThenFlush(rep *Report) {
 	}
 }
 
+// c12FullFileTailRewrite: the file (shared with an application that holds every page the queue does not) is full;
+// the producer appends events that fit into the already allocated tail page - ending exactly at the end of the page,
+// a few bytes before it, or in the middle - and flushes: the flush needs no new queue page, only room for the
+// rewritten tail page, and fails. It must fail with an error (the writer model: a flush that fails after the
+// allocation step takes back the ids it assigned - here none), the events stay buffered, and once the application
+// releases its pages a flush succeeds and everything is delivered.
+func c12FullFileTailRewrite(rep *Report, m *model.Client) {
+	for _, ps := range []int{1024, 4096} {
+		payload := ps - 28
+		for v, rest := range []int{0, 2, 3, 4, 40} { // bytes left in the tail page after the second event
+			for keep := 0; keep <= 1; keep++ {
+				first := 100
+				second := payload - (4 + first) - 4 - rest
+				cfg := pqengine.Config{PageSize: uint32(ps), MaxSize: uint64(64 * ps), WriteBuffer: 0}
+				ops := []pqengine.Op{{Kind: "event", N: first, Seed: 1}, {Kind: "flush"}, {Kind: "appfill", N: keep},
+					{Kind: "event", N: second, Seed: 2}, {Kind: "flush"}, {Kind: "event", N: 7, Seed: 3}, {Kind: "flush"},
+					{Kind: "apprelease"}, {Kind: "flush"}, {Kind: "event", N: 9, Seed: 4}, {Kind: "flush"}}
+				runPQHistory(rep, cfg, ops, int64(7000+ps+10*v+keep), "c12-tail", pqWriterK1Setup(rep, m), nil)
+				rep.count("scenario:full-shared-file/flush-that-only-rewrites-the-tail-page", 1)
+			}
+		}
+	}
+}
+
 func runPQStress(rep *Report, r *rand.Rand, n int) {
 	// directed: reader hand-over under a pending commit
 	for i := 0; i < 3+n/20; i++ {
@@ -1216,6 +1241,7 @@ func init() {
 		}
 		c12FillLevels(rep)
 		c12DrainThenFlush(rep)
+		c12FullFileTailRewrite(rep, m)
 		for i := 0; i < n; i++ {
 			if rep.outOfTime() {
 				break
@@ -1272,6 +1298,12 @@ func init() {
 			}, nil)
 			return rep.finish(f)
 		}
+		m, err := model.Start()
+		if err != nil {
+			fmt.Fprintln(os.Stderr, err)
+			return 2
+		}
+		defer m.Close()
 		r := rand.New(rand.NewSource(f.seed))
 		n := 200
 		if f.tier == "thorough" {
@@ -1298,6 +1330,7 @@ func init() {
 			ops := pqengine.History(hr, prof)
 			checks := 0
 			e := runPQHistory(rep, cfg, ops, hseed, "c17", func(e *pqengine.Engine) {
+				pqWriterK1Setup(rep, m)(e)
 				e.AfterOp = func(e *pqengine.Engine, op pqengine.Op, res string) {
 					if op.Kind != "counters" {
 						e.CheckCounters("after " + op.String())
